@@ -22,6 +22,22 @@ class Unk(AVal):
         return f"Unk({self.why})"
 
 
+@dataclass(frozen=True, eq=False)
+class OptV(AVal):
+    """`val` or None (the result of next(it, None), d.get(k), ... on an object): narrowed by `is None` tests."""
+
+    val: AVal = None
+
+    def __eq__(self, other):
+        return isinstance(other, OptV) and (self.val is other.val or self.val == other.val)
+
+    def __hash__(self):
+        return hash(("OptV", id(self.val)))
+
+    def __repr__(self):
+        return f"Optional[{self.val!r}]"
+
+
 @dataclass(frozen=True)
 class Const(AVal):
     """A concrete python constant (None, bool, int, float, str, Ellipsis)."""
@@ -102,6 +118,7 @@ class ListV(AVal):
     head: AVal | None = None
     tail: tuple = ()
     tail_elem: AVal | None = None  # the `elem` these head/tail describe; a derived list with another elem invalidates them
+    it: int | None = None  # identity of a one-shot iterator (iter(), generator expression, chain, map, zip, ...): consumed once per path
 
     def parts(self):
         """(head element, tail items) when the segmented view is valid for this list, else None."""
@@ -331,6 +348,16 @@ def join(a: AVal, b: AVal) -> AVal:
         return a
     if isinstance(b, Unk):
         return b
+    # an object or None
+    if isinstance(a, OptV) or isinstance(b, OptV):
+        va = a.val if isinstance(a, OptV) else (None if isinstance(a, Const) and a.v is None else a)
+        vb = b.val if isinstance(b, OptV) else (None if isinstance(b, Const) and b.v is None else b)
+        inner = join(va, vb)
+        return inner if isinstance(inner, Unk) else OptV(inner)
+    if isinstance(a, ObjV) and isinstance(b, Const) and b.v is None:
+        return OptV(a)
+    if isinstance(b, ObjV) and isinstance(a, Const) and a.v is None:
+        return OptV(b)
     if isinstance(a, TV) and isinstance(b, TV):
         if a.kind != b.kind:
             if a.is_py and b.is_py:
@@ -481,3 +508,10 @@ def const_to_tv(c: Const) -> AVal:
             pl = None
         return TV(kind="pyfloat", dtype="Py", poly=pl, deg=Z if v == 0 else Fraction(0))
     return c
+
+
+def join_all(items):
+    out = None
+    for x in items:
+        out = x if out is None else join(out, x)
+    return out
